@@ -422,6 +422,25 @@ def compare(c, df, colname, exp, combo, what, rel=1e-12, cat=False, has_null=Fal
             c.bad("wrong_dtype", "%s: dtype %s, schema implies %s%d" % (what, s.dtype, kind, size * 8))
 
 
+def _as_float(c, data, colname, exp, what):
+    import io
+    import fastparquet
+    from mc import oracles as O
+    c.ctx = dict(c.ctx, as_float=True)
+    try:
+        df = fastparquet.ParquetFile(io.BytesIO(data), pandas_nulls=False).to_pandas()
+    except Exception as e:
+        c.bad("read_raised", "%s: %s: %s" % (what, type(e).__name__, str(e)[:150]), exc=type(e).__name__)
+        return
+    got = O.series_to_list(df[colname])
+    want = [None if v is None else float(v) for v in exp]
+    c.values += len(want)
+    i = O.first_diff(got, want, 1e-12)
+    if i is not None:
+        c.bad("wrong_value", "%s: row %s is %r, file encodes %r" % (what, i, got[i] if 0 <= i < len(got) else len(got),
+                                                                   want[i] if 0 <= i < len(want) else len(want)))
+
+
 def _as_index(c, data, colname, exp, combo, what):
     import io
     import fastparquet
@@ -708,6 +727,9 @@ def run_D2(c, p):
                     if df is None:
                         continue
                     compare(c, df, "c", exp, combo, what, has_null=any(mask))
+                    if rep == "optional" and defprog == "auto" and p["type"] in ("int32", "int64", "int8", "uint8"):
+                        # the non-default pandas_nulls=False: integers with (possible) NULLs come back as floats
+                        _as_float(c, data, "c", exp, what + " pandas_nulls=False")
                     if nrg == 1 and defprog == "auto" and len(split) <= 2:
                         # the same column asked for as the row index (non-default index=): the values, NULLs
                         # included, are those of the column
